@@ -28,13 +28,13 @@ CHECKS = {
  "C03": dict(cat="exploration", tech="offline trace checker over an ENTER/EXIT event log (ordering, non-overlap, CONNECTED/DISCONNECTED placement) under segmentation, handler-delay injection, GOMAXPROCS sweep and the race detector; virtual-time (synctest) slow-handler sessions; supervised-reconnect sessions (a supervisor connects while a handler of the old connection still runs)",
    text="Numbered lines are sent through live in-memory connections cut into hostile segmentations (per byte, inside CRLF, lines longer than the read buffer) to verbs with several foreground and background handlers whose durations are drawn to provoke overlap; the event log must show one line's foreground handlers open at a time, strictly increasing dispatch, every handler once, CONNECTED after the welcome is applied and before later lines, DISCONNECTED after every foreground exit. Held on the schedules observed; evidence counts sessions where same-line overlap was seen (log can see overlap) and lines crossed segments. Sessions mix in PING/PRIVMSG/NOTICE/PONG/MODE lines, handlers check that lines arrive whole, the library's own 'nick changed' warning is used as a delay-injection point, and a virtual-time batch runs handlers that take up to an hour.",
    note="Trusted: the event log's tick is taken inside the append critical section, so log order is consistent with real time; schedules are sampled.", ref="§4 C03"),
- "C15": dict(cat="exploration", tech="scribble-and-barrier monitor inside handlers + storage-identity check + race detector attributed to the handlers' writes",
+ "C15": dict(cat="exploration", tech="scribble-and-barrier monitor inside handlers + storage-identity check + race detector attributed to the handlers' writes and to the dispatcher; built-in-event mode comparing every user handler's line with the parse of what was sent",
    text="Every handler invocation compares its line with the expected parse, scribbles over all of it, meets the other invocations of the event at a barrier and checks that only its own marks are present; backing arrays and tag maps must be pairwise distinct; the race detector watches the concurrent writes. Held on the events and interleavings produced.",
    note="Trusted: reflect pointers identify storage; the expected line is computed by a deep copy that does not use Line.Copy.", ref="§4 C15"),
- "C16": dict(cat="exploration", tech="invocation-counter and recovery-hook oracles at sync markers under injected panics and permanently parked background handlers; dead-state proof when a marker is not reached; hostile-input mode in which the recovery hook reports which built-in handlers panicked",
+ "C16": dict(cat="exploration", tech="invocation-counter and recovery-hook oracles at sync markers under injected panics and permanently parked background handlers; dead-state proof when a marker is not reached; hostile-input mode in which the recovery hook reports which built-in handlers panicked; panics during teardown",
    text="User foreground/background and built-in handlers are made to panic with five value kinds at PRNG positions under the default and a custom recovery, next to 0..8 background handlers that never return; at markers every well-behaved handler's count must equal the number of events, the recovery function must have run once per panic with that value and line (default: an error record), and later markers must be reached. Held on the sessions explored.",
    note="Trusted: counters are atomic; a marker not reached is a violation only with a goroutine-census dead-state proof.", ref="§4 C16"),
- "C06": dict(cat="fault_enumeration", tech="fault enumeration on an in-memory transport (cause pairs fired from one barrier) with lifecycle counters, Connected() samples inside handlers and a goroutine-census quiescence oracle; continuous Connected() polling while second Connects are refused; loopback TCP scenarios; crash journal; race detector",
+ "C06": dict(cat="fault_enumeration", tech="fault enumeration on an in-memory transport (cause pairs fired from one barrier) with lifecycle counters, Connected() samples inside handlers and a goroutine-census quiescence oracle; continuous Connected() polling while second Connects are refused; simultaneous Connects; context ending during a TLS handshake; supervised reconnects; loopback TCP scenarios; crash journal; race detector",
    text="Every single end cause and every unordered pair of causes (Close from 1/3/8 goroutines, EOF, read error, write error, context cancel) is fired against connections in seven traffic states and five configurations, plus second-Connect-while-connected, failing connects and Close on an unconnected client; REGISTER/DISCONNECTED counts, Connected() samples taken inside the handlers and return values are judged once the goroutine census shows no library goroutine. The cause/traffic grid is enumerated completely; the schedules inside each scenario are sampled (GOMAXPROCS 1,2,4,16, repetitions). A teardown that is proven unable to ever deliver DISCONNECTED is reported here as zero-instead-of-one.",
    note="Trusted: the in-memory net.Conn's fault injection reflects what a socket does (a peer that is gone also fails writes); a teardown that never completes is reported by C07, here it is inconclusive.", ref="§4 C06"),
  "C07": dict(cat="fault_enumeration", tech="goroutine-census wait-for (dead-state) oracle for completion, leak census after DISCONNECTED, wire transcript and tracker/Config().Me checks of every next connection; curated + PRNG fault scenarios; the same over loopback TCP sockets against in-process servers that close back or keep the socket open; race detector",
